@@ -91,7 +91,7 @@ def tie(ctx, prop="ctx"):
             if f.endswith(".case"):
                 ctx.tie("cacheconc-corpus-" + f[:-5], _filtered(prop, h, "run", os.path.join(corpus, f)), [drv])
     if ctx.quick:
-        ctx.tie("cacheconc-schedules", _filtered(prop, h, "gen", "--seed", str(ctx.seed), "--cases", "700", "--dfs", "700"), [drv], timeout=600)
+        ctx.tie("cacheconc-schedules", _filtered(prop, h, "gen", "--seed", str(ctx.seed), "--cases", "1500", "--dfs", "1500"), [drv], timeout=600)
     else:
         ctx.tie("cacheconc-schedules", _filtered(prop, h, "gen", "--seed", str(ctx.seed), "--cases", "12000", "--dfs", "30000", "--tier", "thorough"), [drv], timeout=3000)
 
